@@ -8,7 +8,7 @@ from ..cfg import NORMAL, Node
 from ..core import Ctx
 from ..flow import ALL, find_path, names_in
 from ..model import AnalysisError, FunctionInfo, dotted, norm_text
-from .common import null_edges, owner_tops, str_consts, edge_target, kwarg, reachable_from
+from .common import null_edges, owner_tops, str_consts, walk_all, edge_target, kwarg, reachable_from
 
 EXPLANATION = (
     "Static analysis of filters.py and the scan APIs: (R1) the operator tables agree and are exhaustive (enum members = handler "
@@ -110,7 +110,7 @@ def r1(ctx: Ctx) -> None:
     po, mp = parse_table(ctx)
     mapped = {v.attr for v in mp.values if isinstance(v, ast.Attribute)}
     pf = ctx.fn("filters.parse_filter_dict")
-    direct = {a.attr for n in ast.walk(pf.node) if isinstance(n, ast.Call) and (dotted(n.func) or "") == "FilterExpression"
+    direct = {a.attr for n in walk_all(ctx, pf) if isinstance(n, ast.Call) and (dotted(n.func) or "") == "FilterExpression"
               for a in n.args[1:2] if isinstance(a, ast.Attribute)}
     ctx.ob("C12.R1", po, "parser range == FilterOp members", None, (mapped | direct) == members,
            f"_parse_op maps to {sorted(mapped)}; parse_filter_dict constructs {sorted(direct)}; unreachable operators: "
@@ -194,6 +194,8 @@ def r2(ctx: Ctx) -> None:
             defs = ctx.rd(pf).reaching(c.id, a.id)
             if defs and all("_parse_op" in norm_text(pg.nodes[d].ast) for d in defs if pg.nodes[d].ast is not None):
                 continue
+        if isinstance(a, ast.Call) and (dotted(a.func) or "").split(".")[-1] == "_parse_op":
+            continue  # FilterExpression(column, _parse_op(op_str), value)
         bad.append(c)
     ctx.ob("C12.R2", pf, "every FilterExpression gets a literal operator or _parse_op's result", bad[0] if bad else None, not bad, "")
 
